@@ -89,6 +89,9 @@ def fetch_schema_locations(source: Union['XMLResource', XMLSourceType],
         raise XMLSchemaValueError("provided arguments don't contain any schema location hint")
 
     namespace = resource.namespace
+    if base_url is None:
+        base_url = resource.base_url  # the hints are checked against the base of the XML source
+
     for ns, location in sorted(locations, key=lambda x: x[0] != namespace):
         try:
             resource = XMLResource(location, base_url, allow, defuse, timeout,
